@@ -16,6 +16,10 @@ OPEN
 * finding F-C13-1 (known_findings.json): with `format_exceptions`, `Template.render_context` leaves the error page
   in a fresh internal buffer instead of the caller's buffer.  The model follows the code (`execTemplate`,
   `format_exceptions_renders_error_page` speak about `render()`).
+The seven constants of `Generated/RuntimeFacts.lean` are consumed only by their own obligations
+(`runtime_cleanup_uses_finally`, `runtime_error_paths_as_modelled`): they pin the shape of the runtime helpers that
+the hand-written model assumes, no model definition is computed from them; `supportsCallerCleanup` has no Lean
+counterpart at all (`supports_caller` is not modelled).
 Not modelled: asynchronous exceptions, cache back ends, inheritance chains, namespaces of other templates and
 python-module `supports_caller` defs (oracle streams of the check only).
 -/
